@@ -75,9 +75,9 @@ prop("C04",
      technique="explicit-state BFS over vector-interface histories on the three real vector classes vs a reference multiset with identities; sortedness/permutation/link invariants",
      rule="E1 per class: BFS over histories of {insert(x), remove(p)} with duplicate, minimum, maximum and absent probes to a fixpoint of the capped multiset space; "
           "dedup by multiplicity vector; every op from every multiset; find/contains/iterator/to_array/dup probed in every new state; non-trivial = distinct multisets",
-     bounds={"quick": "3 values, multiplicity<=2, size<=5, fixpoint", "thorough": "5 values, multiplicity<=3, size<=9, fixpoint"},
+     bounds={"quick": "4 values, multiplicity<=3, size<=7, fixpoint, one-step look-ahead", "thorough": "6 values, multiplicity<=4, size<=14, fixpoint, one-step look-ahead"},
      runs=[dict(name="h_vector", sources=["harness/h_vector.c"], profile="asan",
-                args={"quick": ["--values=3", "--mult=2", "--S=5"], "thorough": ["--values=5", "--mult=3", "--S=9"]})],
+                args={"quick": ["--values=4", "--mult=3", "--S=7"], "thorough": ["--values=6", "--mult=4", "--S=14"]})],
      deadline={"quick": 200, "thorough": 3000})
 
 
